@@ -42,6 +42,12 @@ def registry(groups=None):
     for p in plugins():
         try:
             regs = registry_of(p)
+            if regs:
+                # same success criterion as generate_all, so that indices into
+                # Generated.all_regexes stay aligned when a plugin fails
+                list(load(p).generate())
+                import factlib as _f
+                _f.coq_regex_file(load(p).NAME, regs)
         except Exception:  # noqa
             continue
         if groups is None or load(p).NAME in groups:
